@@ -18,7 +18,9 @@ EXPL = ("Effect summaries (alias classes Fresh / alias-of-parameter / alias-of-s
         "attribute of their object (allow-list by name), contour computations write only their own attributes and never the model's; C19.template: the "
         "per-interval fit receiver is copy.deepcopy(template); C19.getters: everything reachable from the tuple returned by the six predefined getters is "
         "allocated inside the call, no module-level mutable object, no mutable default, no memoising decorator; C19.globals: no function assigns or mutates "
-        "module- or class-level mutable state; C19.control: the detector reports every impure function of a fixture module and stays silent on its pure one.")
+        "module- or class-level mutable state; C19.control: the detector reports every impure function of a fixture module and stays silent on its pure one. "
+        "C19.args: package-wide sweep (rules/argmut.py) - no public function stores into, deletes from or calls a mutating method on a parameter whose entry value "
+        "still reaches that statement (reaching definitions), directly or through private helpers it hands the parameter to; a built-in positive example must be reported on every run.")
 ASSUME = ["numpy copy/view semantics as tabulated in vstat/effects.py", "external (numpy/scipy/matplotlib/pandas/sklearn/networkx) callables do not mutate their array arguments except the tabulated mutators",
           "bitwise repeatability beyond absence of hidden state is not decided"]
 
@@ -112,7 +114,51 @@ def _repeatable(prog, rep):
     rep.expect_min("C19.repeat", 4)
 
 
+def _args_sweep(prog, rep):
+    """package-wide complement of C19.noargmut (which follows aliases, for the evaluation entries only): no PUBLIC function stores into,
+    or calls a mutating method on, a parameter it never re-binds (rules/argmut.py)"""
+    from . import argmut
+    if not argmut.self_test():
+        raise AnalysisError("argmut: the built-in positive example is no longer reported")
+    fns = [(q, f.node) for q, f in sorted(prog.functions.items()) if isinstance(f.node, ast.FunctionDef) and q.startswith("virocon.") and f.parent is None]
+    from vstat.dataflow import rd_of
+    by_node = {id(f.node): f for _q, f in prog.functions.items()}
+    stmt_maps = {}
+
+    def reaches(fnode, name, node):
+        """does the parameter's entry value reach the statement this node belongs to? (reaching definitions)"""
+        f = by_node[id(fnode)]
+        if id(fnode) not in stmt_maps:
+            m = {}
+            stmts = list(cfg_of(f).all_stmts())
+            for st in sorted(stmts, key=lambda s_: -sum(1 for _ in ast.walk(s_))):
+                for n_ in ast.walk(st):
+                    m[id(n_)] = st          # the innermost statement wins (visited last)
+            stmt_maps[id(fnode)] = m
+        st = stmt_maps[id(fnode)].get(id(node))
+        if st is None:
+            return True
+        try:
+            return any(d.kind == "param" for d in rd_of(f).reaching(name, st))
+        except Exception:
+            return True
+    reports, pairs = argmut.scan(fns, reaches)
+    if pairs < 150:
+        raise AnalysisError(f"argmut: only {pairs} (function, parameter) pairs found in the package (anchor: at least 150)")
+    seen = set()
+    for q, p_, ln, text in reports:
+        if (q, p_) in seen:
+            continue
+        seen.add((q, p_))
+        fn = prog.func(q)
+        rep.fail("C19.args", f"{q}:{p_}", f"{fn.file}:{ln}", f"the caller's argument '{p_}' is changed in place: {text} - the caller's object is different after the call "
+                 "(a tuple or a read-only array raises instead)")
+    rep.ok("C19.args", "virocon:sweep", "virocon/", f"{pairs} (public function, never re-bound parameter) pairs examined, {len(seen)} changed in place")
+
+
 def run(prog, rep):
+    rep.part(_args_sweep, prog, rep)
+    rep.expect_min("C19.args", 1)
     rep.part(_repeatable, prog, rep)
     rep.explanation = EXPL
     rep.assumptions = ASSUME
